@@ -6,7 +6,8 @@
 (*                                                                         *)
 (* The space of programs is not enumerable by TLC at the level of Go       *)
 (* source.  What this module fixes is one level up:                        *)
-(*  (a) the abstract case space  shape x operand effects x context         *)
+(*  (a) the abstract case space                                            *)
+(*        shape x operand effects x context x occurrence variation         *)
 (*      (Cases), enumerated exhaustively by TLC; the harness instantiates  *)
 (*      every case as an executable Go function (templates keyed by the    *)
 (*      shape id) whose operands are built from the effect names:          *)
@@ -20,31 +21,130 @@
 (* An observation is what one execution on one input vector shows:         *)
 (*   [ret |-> rendered results + final state, pan |-> "" or panic class,   *)
 (*    emits |-> sequence of operand ids in evaluation order].              *)
+(*                                                                         *)
+(* Occurrence variation.  Many trigger shapes require several              *)
+(* sub-expressions to be "the same" (a repeated metavariable: the tag of   *)
+(* every condition of an if/else-if chain, map and key of a guarded        *)
+(* delete, the slice that is ranged over and indexed, ...).  The checks    *)
+(* decide "the same" syntactically (astutil.Equal, the pattern matcher's   *)
+(* recall of a binding, types.Object identity), so the *matching           *)
+(* condition* is part of what makes the rewrite equivalent.  A case        *)
+(* therefore also says how the occurrences of one repeated metavariable    *)
+(* are instantiated:                                                        *)
+(*   occ = [mv |-> "", var |-> "same", at |-> 0]   all occurrences of all  *)
+(*         metavariables are the identical expression (the base cases);    *)
+(*   occ = [mv |-> m, var |-> v, at |-> a]   the a-th variable occurrence  *)
+(*         of metavariable m carries the *near-equal variant* v of the     *)
+(*         expression that all its other occurrences carry: syntactically  *)
+(*         different, looks alike (swapped operands of + - * & | ^ == !=,  *)
+(*         redundant parentheses, another spelling of a literal, x / x+0,  *)
+(*         another index / field / base / element, another identifier).    *)
+(* The expectation does not depend on occ: whatever fix the analyzer       *)
+(* offers for the instantiated function must be Preserved.  (If the check  *)
+(* does not fire on a variant there is nothing to judge.)                  *)
 (***************************************************************************)
 EXTENDS Integers, Sequences, FiniteSets, TLC, Json
 
 CONSTANTS
-  Shapes,      \* set of [id, check, slots : Seq([kind, allow : set of effect names])], ctxs : set of STRING]
+  Shapes,      \* set of [id, check, slots : Seq([kind, allow : set of effect names]), ctxs : set of STRING,
+               \*         reps : Seq([mv, kind, n, slot, vars])]
   MaxCases     \* sanity bound on the number of cases per shape
 
 VARIABLE cs
 
+-----------------------------------------------------------------------------
+(* Near-equal variants, by the kind of the repeated metavariable.           *)
+(*   paren      e          / (e)                                            *)
+(*   swapAdd..  a OP b     / b OP a      OP in + - * & | ^  (ints),         *)
+(*   swapCat    a + b      / b + a       strings: + is not commutative      *)
+(*   swapEq/Ne  (a == b)   / (b == a)    bool-valued metavariable           *)
+(*   swapCall   f() OP g() / g() OP f()  order of evaluation is observable  *)
+(*   lit        e OP 1     / e OP 0x1    ("a" / "\x61"): same value         *)
+(*   plus0      e          / e + 0       (e + "")                           *)
+(*   index      a[0]       / a[1]        different index of the same base   *)
+(*   field      p.A        / p.B         different field of the same base   *)
+(*   base       p.A        / q.A         same field of a different base     *)
+(*   elt        T{e, 1}[1] / T{e, 2}[1]  composite literals, one element    *)
+(*   ident      x          / y           another variable of the same type  *)
+IntVars  == {"paren", "swapAdd", "swapSub", "swapMul", "swapAnd", "swapOr", "swapXor", "swapCall",
+             "lit", "plus0", "index", "field", "base", "elt"}
+StrVars  == {"paren", "swapCat", "swapCall", "lit", "plus0", "index", "field", "base", "elt"}
+BoolVars == {"paren", "swapEq", "swapNe", "swapCall", "index", "field", "base"}
+MapVars  == {"paren", "index", "lit", "field", "base"}
+SlVars   == {"paren", "index", "lit", "field", "base", "elt"}
+IdVars   == {"paren", "ident"}
+
+VarsOf(kind) ==
+  CASE kind = "int"  -> IntVars
+    [] kind = "str"  -> StrVars
+    [] kind = "bool" -> BoolVars
+    [] kind = "map"  -> MapVars
+    [] kind = "sl"   -> SlVars \cup {"ident"}
+    [] kind = "id"   -> IdVars
+
+Variations == UNION { VarsOf(k) : k \in {"int", "str", "bool", "map", "sl", "id"} }
+
+Same == [mv |-> "", var |-> "same", at |-> 0]
+
+-----------------------------------------------------------------------------
 EffVectors(s) ==
   LET n == Len(s.slots)
   IN  { ev \in [1..n -> UNION { s.slots[i].allow : i \in 1..n }] :
           \A i \in 1..n : ev[i] \in s.slots[i].allow }
 
-CasesOf(s) == { [shape |-> s.id, check |-> s.check, effects |-> ev, ctx |-> c] :
-                  ev \in EffVectors(s), c \in s.ctxs }
+BaseCasesOf(s) == { [shape |-> s.id, check |-> s.check, effects |-> ev, ctx |-> c, occ |-> Same] :
+                      ev \in EffVectors(s), c \in s.ctxs }
+
+(* Operand effects of a variation case.  A metavariable that is one of the  *)
+(* shape's operand slots (r.slot > 0) is instantiated by the variation, not *)
+(* by an effect: its slot is pinned to "var".  The other slots range over   *)
+(* their side-effect free effects (a call operand only makes the checks     *)
+(* refuse; that is covered by the base cases).                              *)
+Plain == {"var", "lit"}
+OccAllow(s, r, i) ==
+  IF i = r.slot THEN {"var"}
+  ELSE IF s.slots[i].allow \cap Plain # {} THEN s.slots[i].allow \cap Plain
+  ELSE s.slots[i].allow
+
+OccVectors(s, r) ==
+  LET n == Len(s.slots)
+  IN  { ev \in [1..n -> UNION { s.slots[i].allow : i \in 1..n }] :
+          \A i \in 1..n : ev[i] \in OccAllow(s, r, i) }
+
+OccCasesOfRep(s, r) ==
+  { [shape |-> s.id, check |-> s.check, effects |-> ev, ctx |-> c,
+     occ |-> [mv |-> r.mv, var |-> v, at |-> a]] :
+      v \in r.vars, a \in 1..r.n, ev \in OccVectors(s, r), c \in s.ctxs }
+
+OccCasesOf(s) == UNION { OccCasesOfRep(s, s.reps[j]) : j \in 1..Len(s.reps) }
+
+CasesOf(s) == BaseCasesOf(s) \cup OccCasesOf(s)
 Cases == UNION { CasesOf(s) : s \in Shapes }
 
-ASSUME Sane == \A s \in Shapes : Cardinality(CasesOf(s)) \in 1..MaxCases
+RepOK(s, r) ==
+  /\ r.n >= 1
+  /\ r.slot \in 0..Len(s.slots)
+  /\ r.slot > 0 => "var" \in s.slots[r.slot].allow
+  /\ r.vars # {} /\ r.vars \subseteq VarsOf(r.kind)
+
+ASSUME Sane ==
+  \A s \in Shapes :
+    /\ Cardinality(CasesOf(s)) \in 1..MaxCases
+    /\ \A j \in 1..Len(s.reps) : RepOK(s, s.reps[j])
+    /\ \A i, j \in 1..Len(s.reps) : s.reps[i].mv = s.reps[j].mv => i = j
 
 Init == cs \in Cases
 Next == UNCHANGED cs
 Spec == Init /\ [][Next]_cs
 
 EmitCase == PrintT("CASE " \o ToJson(cs))
+
+\* a case is either a base case or names one variant occurrence of one repeated metavariable of its shape
+OccOK ==
+  \/ cs.occ = Same
+  \/ /\ cs.occ.var \in Variations /\ cs.occ.at >= 1
+     /\ \E s \in Shapes : s.id = cs.shape /\ \E j \in 1..Len(s.reps) :
+          s.reps[j].mv = cs.occ.mv /\ cs.occ.var \in s.reps[j].vars /\ cs.occ.at <= s.reps[j].n
 
 -----------------------------------------------------------------------------
 (* The relation.                                                            *)
